@@ -136,7 +136,11 @@ static int runChild(const std::vector<Value>& files, size_t from, size_t to, con
       SH->cur = (int)k;
       struct itimerval tv = {{0, 0}, {10, 0}};
       setitimer(ITIMER_REAL, &tv, nullptr);
+      struct timeval t0, t1;
+      gettimeofday(&t0, nullptr);
       Value rec = runOne(files[k], tmp);
+      gettimeofday(&t1, nullptr);
+      rec["ms"] = Value((int)((t1.tv_sec - t0.tv_sec) * 1000 + (t1.tv_usec - t0.tv_usec) / 1000));
       struct itimerval off = {{0, 0}, {0, 0}};
       setitimer(ITIMER_REAL, &off, nullptr);
       fprintf(out, "%s\n", vj::dump(rec).c_str());
